@@ -167,7 +167,12 @@ pub fn finalize(
     let mut known_hits: BTreeMap<usize, usize> = BTreeMap::new();
     let mut by_sig = serde_json::Map::new();
     let _ = std::fs::create_dir_all(format!("{verif_dir}/replays/{prop}"));
-    for (sig, (count, v)) in &groups {
+    // smallest witnesses first; at most MAX_LINES VIOLATION lines are printed (all signatures are in the evidence)
+    const MAX_LINES: usize = 60;
+    let mut order: Vec<(&String, &(usize, &Viol))> = groups.iter().collect();
+    order.sort_by(|a, b| (a.1 .1.rank, a.0).cmp(&(b.1 .1.rank, b.0)));
+    let mut printed = 0usize;
+    for (sig, (count, v)) in order {
         by_sig.insert(sig.clone(), json!(count));
         if let Some(ki) = known.iter().position(|k| k.property == prop && k.status == "known" && sig_matches(&k.signature, sig)) {
             *known_hits.entry(ki).or_insert(0usize) += 1;
@@ -175,6 +180,10 @@ pub fn finalize(
             continue;
         }
         unlisted += 1;
+        printed += 1;
+        if printed > MAX_LINES {
+            continue;
+        }
         let digest = hex::encode(&crate::keccak::keccak256(sig.as_bytes())[..6]);
         let path = format!("{verif_dir}/replays/{prop}/{digest}-{cfg}.json");
         let mut body = v.replay.clone();
@@ -189,6 +198,9 @@ pub fn finalize(
         println!("VIOLATION property={prop} replay={path}");
         println!("  signature: {sig}");
         println!("  what: {}", v.what);
+    }
+    if printed > MAX_LINES {
+        println!("... and {} further violation signatures of {prop} (listed in the evidence file under violations_by_signature)", printed - MAX_LINES);
     }
     for (ki, n) in &known_hits {
         println!("KNOWN-FINDING: property={prop} {} [{} call sites / clauses matched {}]", known[*ki].what, n, known[*ki].signature);
